@@ -72,7 +72,224 @@ Example c25_example :
        ([114; 47; 122], 4%nat, ([119; 46; 101; 46], 6, [1; 2; 3; 4]))]%N, None).
 Proof. split; vm_compute; reflexivity. Qed.
 
+(* ======================================================================================= *)
+(* The per-file parser as an ITERATOR WITH STATE (as in the Rust code: every stack entry owns a
+   zone_file::Parser<File>), and its instance with the FULL zone-file parser model of C24.     *)
+From Coq Require Import String Ascii.
+From QV Require Import Model.NameWire Model.ZfReader Model.ZfParser Spec.ZfValidS Model.ZfInc Spec.ZfIncS
+  Proofs.ZfIncP Proofs.ZfIncFullP Proofs.ZfIncLinesP Proofs.ZfPathP.
+
+(* For every per-file iterator (next / context get / context set / creation on a file's content),
+   file system and depth limit: if the spec's per-file budget k is not exhausted, then iterating
+   fs::Parser::next (with enough fuel) yields exactly the records of the structural expansion
+   [gexpand], followed by its first error / its end. *)
+Theorem c25_iter_stack_eq_expand :
+  forall (Origin Own Ttl Cls Rec SErr Num P F : Type)
+         (pnext : P -> pres Origin Rec SErr Num P) (pctx : P -> ZfFs.ctx Origin Own Ttl Cls)
+         (pwith : P -> ZfFs.ctx Origin Own Ttl Cls -> P) (pnew : F -> ZfFs.ctx Origin Own Ttl Cls -> P)
+         (fs : path -> option F) (size : P -> nat) (max_depth : nat) p0 n0 s0 k,
+  snd (gexpand Origin Own Ttl Cls Rec SErr Num P F pnext pctx pwith pnew fs size max_depth [] p0 k s0)
+    <> GFuel _ _ _ _ _ _ ->
+  exists f0, forall fuel, f0 <= fuel ->
+    ZfInc.run Origin Own Ttl Cls Rec SErr Num P F pnext pctx pwith pnew fs max_depth fuel [(p0, n0, s0)] =
+    (fst (gexpand Origin Own Ttl Cls Rec SErr Num P F pnext pctx pwith pnew fs size max_depth [] p0 k s0),
+     gfinal_of Origin Own Ttl Cls SErr Num
+       (snd (gexpand Origin Own Ttl Cls Rec SErr Num P F pnext pctx pwith pnew fs size max_depth [] p0 k s0))).
+Proof. intros. apply run_eq_gexpand. assumption. Qed.
+
+Theorem c25_iter_depth :
+  forall (Origin Own Ttl Cls Rec SErr Num P F : Type)
+         (pnext : P -> pres Origin Rec SErr Num P) (pctx : P -> ZfFs.ctx Origin Own Ttl Cls)
+         (pwith : P -> ZfFs.ctx Origin Own Ttl Cls -> P) (pnew : F -> ZfFs.ctx Origin Own Ttl Cls -> P)
+         (fs : path -> option F) (size : P -> nat) chain p k s n ip o s',
+  pnext s = PInc _ _ _ _ _ n ip o s' ->
+  gexpand Origin Own Ttl Cls Rec SErr Num P F pnext pctx pwith pnew fs size 0 chain p (S k) s =
+  ([], GBad _ _ _ _ _ _ p (ITooDeep _ _ n (chain ++ [(p, n)]))).
+Proof. intros. eapply gexpand_too_deep. eassumption. Qed.
+
+(* The first-wave formulation (a file = pre-split logical lines + a pure line parser) is the special
+   case of the iterator formulation whose per-file state is (context, remaining lines) and whose
+   `next` skips the silent lines: the two structural expansions coincide (budget = lines + 1), and the
+   iterator machine on such states yields the first-wave expansion. *)
+Theorem c25_lines_are_iter :
+  forall (Origin Own Ttl Cls Rec SErr L : Type)
+         (pline : ZfFs.ctx Origin Own Ttl Cls -> L -> ZfFs.lres Origin Own Ttl Cls Rec SErr)
+         (fs : path -> option (list (nat * L))) (max_depth : nat) p0 n0 c0 t0,
+  gexpand Origin Own Ttl Cls Rec SErr nat (lstate Origin Own Ttl Cls L) (list (nat * L))
+    (lnext Origin Own Ttl Cls Rec SErr L pline) (lctx Origin Own Ttl Cls L) (lwith Origin Own Ttl Cls L)
+    (lnew Origin Own Ttl Cls L) fs (lsize Origin Own Ttl Cls L) max_depth [] p0 (S (length t0)) (c0, t0) =
+  (fst (expand Origin Own Ttl Cls Rec SErr L pline fs max_depth [] p0 c0 t0),
+   conv_out Origin Own Ttl Cls SErr (snd (expand Origin Own Ttl Cls Rec SErr L pline fs max_depth [] p0 c0 t0))) /\
+  exists f0, forall fuel, f0 <= fuel ->
+    ZfInc.run Origin Own Ttl Cls Rec SErr nat (lstate Origin Own Ttl Cls L) (list (nat * L))
+      (lnext Origin Own Ttl Cls Rec SErr L pline) (lctx Origin Own Ttl Cls L) (lwith Origin Own Ttl Cls L)
+      (lnew Origin Own Ttl Cls L) fs max_depth fuel [(p0, n0, (c0, t0))] =
+    (fst (expand Origin Own Ttl Cls Rec SErr L pline fs max_depth [] p0 c0 t0),
+     gfinal_of _ _ _ _ _ _ (conv_out Origin Own Ttl Cls SErr
+                              (snd (expand Origin Own Ttl Cls Rec SErr L pline fs max_depth [] p0 c0 t0)))).
+Proof.
+  intros. split; [apply gexpand_lines; apply Nat.lt_succ_diag_r|apply lines_iter_run].
+Qed.
+
+(* "Relative include paths resolve against the including file's directory" (compute_path =
+   Path::parent + Path::join), read at the string level: an includer `dir/base` (base without `/`,
+   dir not empty and not ending in `/`) resolves `rel` to `dir/rel`, and to `rel` itself when rel is
+   absolute; an includer that is a bare file name resolves `rel` to `rel`. *)
+Theorem c25_relative_paths :
+  forall dir base rel : bytes, base <> [] -> no_slash base ->
+  compute_path base rel = Some rel /\
+  (dir <> [] -> last dir 0%N <> 47%N ->
+   compute_path (dir ++ 47%N :: base) rel =
+   Some (match rel with (47%N :: _)%list => rel | _ => dir ++ 47%N :: rel end)).
+Proof.
+  intros dir base rel Hne Hb. split; [apply compute_path_bare; assumption|].
+  intros Hd Hl. apply compute_path_in_dir; assumption.
+Qed.
+
+(* THE ZONE-FILE PARSER.  [full_run] = the include machine whose per-file parser is the model of
+   <zone_file::Parser as Iterator>::next of C24 (Model/ZfParser.v) on the files' octets;
+   [full_expand_root] = the structural expansion with the same parser.  A path names a regular file
+   with its content (FFile) or a directory (FDir: File::open succeeds, the first read fails — the
+   per-file parser reports an I/O error, GeneralIo).  For every file system in
+   which every file that can be opened has a parent directory (the assumption stated in
+   compute_path's comment), every depth limit, root path and root content: *)
+Theorem c25_full_stack_eq_expand :
+  forall (fs : path -> option fobj) (max_depth : nat) (p0 : path) (o0 : fobj),
+  (forall p c, fs p = Some c -> has_parent p) -> has_parent p0 ->
+  exists f0, forall fuel, f0 <= fuel ->
+    full_run fs max_depth fuel [(p0, 0%N, full_root o0)] =
+    (fst (full_expand_root fs max_depth p0 o0),
+     gfinal_of _ _ _ _ _ _ (snd (full_expand_root fs max_depth p0 o0))).
+Proof. intros fs d p0 c0 H1 H2. exact (full_run_eq_expand fs H1 d p0 c0 H2). Qed.
+
+(* ... and the fuel is no assumption of the run: WHATEVER fuel the (extracted) machine is given, a result
+   other than the model's own "out of fuel" is the structural expansion (runs are stable under more
+   fuel).  ocaml/run_c25f.ml uses 200 000 and would print `out-of-fuel` otherwise. *)
+Theorem c25_full_any_fuel :
+  forall (fs : path -> option fobj) (max_depth : nat) (p0 : path) (o0 : fobj) (fuel : nat),
+  (forall p c, fs p = Some c -> has_parent p) -> has_parent p0 ->
+  snd (full_run fs max_depth fuel [(p0, 0%N, full_root o0)]) <> FOutOfFuel _ _ ->
+  full_run fs max_depth fuel [(p0, 0%N, full_root o0)] =
+  (fst (full_expand_root fs max_depth p0 o0), gfinal_of _ _ _ _ _ _ (snd (full_expand_root fs max_depth p0 o0))).
+Proof. intros fs d p0 o0 fuel H1 H2. exact (full_run_any_fuel fs H1 d p0 o0 H2 fuel). Qed.
+
+(* ... the run ends (for all large fuel) with the end of the root file or with an error of
+   fs::Parser — never a panic, never the model's fuel (neither the machine's, nor the per-file
+   parser's, nor the spec's budget) — and every record yielded through any nesting of includes is
+   valid in the sense of C24 (good absolute owner, type not NULL/OPT/TSIG, RDATA accepted by the
+   model of Rdata::validate): C24 holds across include boundaries. *)
+Theorem c25_full_total_valid :
+  forall (fs : path -> option fobj) (max_depth : nat) (p0 : path) (o0 : fobj),
+  (forall p c, fs p = Some c -> has_parent p) -> has_parent p0 ->
+  exists f0, forall fuel, f0 <= fuel ->
+    exists items,
+      (full_run fs max_depth fuel [(p0, 0%N, full_root o0)] = (items, FDone _ _) \/
+       exists p e, full_run fs max_depth fuel [(p0, 0%N, full_root o0)] = (items, FBad _ _ p e)) /\
+      Forall (fun it : full_item =>
+                good_name (rr_owner (snd it)) /\ ~ In (rr_type (snd it)) forbidden_types /\
+                rdata_validate (rr_class (snd it)) (rr_type (snd it)) (rr_rdata (snd it)) = Ok true) items.
+Proof. exact full_run_total_valid. Qed.
+
+(* [has_parent], the hypothesis of the theorems above (the assumption written in compute_path's doc
+   comment), excludes exactly the empty path and "/" — neither can be opened as a zone file. *)
+Theorem c25_has_parent_iff : forall p : path, has_parent p <-> p <> [] /\ p <> [47%N].
+Proof.
+  intros p. unfold has_parent. rewrite path_parent_none. tauto.
+Qed.
+
+(* WHAT CROSSES AN INCLUDE BOUNDARY, in the fields of zone_file::Context.  At an $INCLUDE line that
+   can be followed, the expansion is: the included file parsed by a fresh parser (reader at line 1,
+   column 1, outside parentheses, no error) whose context is the includer's previous owner,
+   previous TTL, previous class and default TTL, with the origin named by the directive if there is
+   one and the includer's otherwise; then the includer's own parser — its reader exactly where it
+   was — with ITS OWN origin and the previous owner, previous TTL, previous class and default TTL
+   ($TTL) the included file ended with. *)
+Theorem c25_full_include_boundary :
+  forall (fs : path -> option fobj) d chain p k s n ip org s' newp content,
+  full_pnext s = PInc _ _ _ _ _ n ip org (FP s') -> compute_path p ip = Some newp -> fs newp = Some (FFile content) ->
+  full_expand fs (S d) chain p (S k) s =
+  (let child := FP (mkParser false (rd_new content)
+                  (mkCtx (match org with Some o => Some o | None => ZfParser.c_origin (ps_ctx s') end)
+                         (c_prev_owner (ps_ctx s')) (c_prev_ttl (ps_ctx s')) (c_prev_class (ps_ctx s'))
+                         (c_default_ttl (ps_ctx s')))) in
+   let '(it, o) := full_expand fs d (chain ++ [(p, n)]) newp (S (full_size child)) child in
+   match o with
+   | GCtx _ _ _ _ _ _ cend =>
+       let '(it', o') := full_expand fs (S d) chain p k
+                           (FP (mkParser (ps_error s') (ps_rd s')
+                              (mkCtx (ZfParser.c_origin (ps_ctx s')) (c_owner _ _ _ _ cend) (c_ttl _ _ _ _ cend)
+                                     (c_class _ _ _ _ cend) (c_dttl _ _ _ _ cend)))) in
+       (it ++ it', o')
+   | bad => (it, bad)
+   end).
+Proof. exact full_expand_include. Qed.
+
+(* (the parser handed back at an $INCLUDE line is always one on a readable file, so the previous
+   theorem covers every followed include of a regular file) and an $INCLUDE that names a DIRECTORY is
+   the included "file"'s I/O error, reported against the directory's path; nothing resumes. *)
+Theorem c25_full_include_directory :
+  forall (fs : path -> option fobj) d chain p k s n ip org s' newp,
+  full_pnext s = PInc _ _ _ _ _ n ip org s' -> compute_path p ip = Some newp ->
+  (exists q, s' = FP q) /\
+  (fs newp = Some FDir ->
+   full_expand fs (S d) chain p (S k) s = ([], GBad _ _ _ _ _ _ newp (ISyntax _ _ EIo))).
+Proof.
+  intros fs d chain p k s n ip org s' newp H1 H2. split.
+  - eapply full_pnext_inc_fp. exact H1.
+  - intros H3. eapply full_expand_include_dir; eassumption.
+Qed.
+
+(* Non-vacuity on real text: the root sets origin e. and $TTL 5 and includes s/a with origin o.;
+   the included file has a relative owner (x -> x.o.), then $TTL 60, $ORIGIN q. and y (-> y.q.);
+   back in the root, the record with omitted owner gets y.q. (the included file's last owner), and
+   `w` is relative to the root's RESTORED origin (w.e.) while its omitted TTL is the included
+   file's $TTL 60 (the default TTL is not restored).  With depth limit 0 the $INCLUDE is an error. *)
+Definition octets (s : string) : bytes := map N_of_ascii (list_ascii_of_string s).
+Definition exf_root := octets "$ORIGIN e.
+$TTL 5
+$INCLUDE s/a o.
+ 7 IN A 1.2.3.4
+w A 1.2.3.5
+".
+Definition exf_inc := octets "x 9 IN A 9.9.9.9
+$TTL 60
+$ORIGIN q.
+y A 1.1.1.1
+".
+Definition exf (p : path) : option fobj :=
+  if list_eq_dec N.eq_dec p (octets "r/z") then Some (FFile exf_root)
+  else if list_eq_dec N.eq_dec p (octets "r/s/a") then Some (FFile exf_inc)
+  else if list_eq_dec N.eq_dec p (octets "r/s/../s") then Some FDir else None.
+Definition exf_view (x : list full_item * full_final) :=
+  (map (fun it : full_item => (fst it, n_wire (rr_owner (snd it)), rr_ttl (snd it), rr_rdata (snd it))) (fst x), snd x).
+
+Example c25_full_example :
+  option_map exf_view (full_open_and_run exf 1 60 (octets "r/z")) =
+  Some ([(octets "r/s/a", 1, [1; 120; 1; 111; 0], 9, [9; 9; 9; 9]);
+         (octets "r/s/a", 4, [1; 121; 1; 113; 0], 60, [1; 1; 1; 1]);
+         (octets "r/z", 4, [1; 121; 1; 113; 0], 7, [1; 2; 3; 4]);
+         (octets "r/z", 5, [1; 119; 1; 101; 0], 60, [1; 2; 3; 5])]%N, FDone _ _) /\
+  option_map exf_view (full_open_and_run exf 0 60 (octets "r/z")) =
+  Some ([], FBad _ _ (octets "r/z") (ITooDeep _ _ 3%N [(octets "r/z", 3%N)])) /\
+  full_expand_root exf 1 (octets "r/z") (FFile exf_root) =
+  (fst (full_run exf 1 60 [(octets "r/z", 0%N, full_root (FFile exf_root))]),
+   snd (full_expand_root exf 1 (octets "r/z") (FFile exf_root))) /\
+  (* a file that includes the directory it lies in *)
+  snd (full_run exf 1 60 [(octets "r/s/a", 0%N, full_root (FFile (octets "$INCLUDE ../s")))]) =
+  FBad _ _ (octets "r/s/../s") (ISyntax _ _ EIo).
+Proof. split; [|split; [|split]]; vm_compute; reflexivity. Qed.
+
 Print Assumptions c25_stack_eq_expand.
 Print Assumptions c25_terminates.
 Print Assumptions c25_depth.
 Print Assumptions c25_context_scoping.
+Print Assumptions c25_iter_stack_eq_expand.
+Print Assumptions c25_iter_depth.
+Print Assumptions c25_full_stack_eq_expand.
+Print Assumptions c25_full_total_valid.
+Print Assumptions c25_full_include_boundary.
+Print Assumptions c25_full_include_directory.
+Print Assumptions c25_lines_are_iter.
+Print Assumptions c25_relative_paths.
+Print Assumptions c25_has_parent_iff.
+Print Assumptions c25_full_any_fuel.
